@@ -2,7 +2,7 @@
 
 use mina::Lerp;
 use mv_engine::{Obs, Run, Tier};
-use mv_model::ulp32;
+
 use proptest::prelude::*;
 use serde::{Deserialize, Serialize};
 use serde_json::json;
@@ -12,6 +12,11 @@ fn catch<T>(f: impl FnOnce() -> T) -> Result<T, String> {
 }
 
 /// Judges one integer lerp result. `a`,`b` exactly representable in f32 (as f64 here), `x` in [0,1].
+/// Error budget of an f32 evaluation of (1-x)*a + x*b against the real interpolation.
+fn arith_slack(a: f64, b: f64, x: f64, real: f64) -> f64 {
+    2f64.powi(-23) * (a.abs() * (1.0 - x).abs() + b.abs() * x.abs() + real.abs()) + 2f64.powi(-24) * a.abs() + 1.5e-45
+}
+
 /// "Monotone in x up to float rounding" for integer results: a decrease by one unit is rounding noise
 /// iff both real interpolations lie within the f32 arithmetic slack of a rounding tie (x.5).
 fn int_decrease_is_noise(a: f64, b: f64, px: f32, x: f32, pv: f64, got: f64, slack: f64) -> bool {
@@ -36,9 +41,11 @@ fn judge_int(a: f64, b: f64, x: f32, got: f64, wide: bool) -> Result<(), String>
     if x == 1.0 && got != b {
         return Err(format!("lerp({a},{b},1) = {got}, expected {b}"));
     }
-    // documented: arithmetic is done in f32 -> allow its rounding on top of round-to-nearest
-    let m = a.abs().max(b.abs());
-    let slack = if wide { 2.0 * ulp32(m as f32) as f64 } else { 3.0 * 2f64.powi(-24) * (m + 1.0) };
+    // documented: arithmetic is done in f32 (as (1-x)*a + x*b) -> allow its rounding on top of
+    // round-to-nearest: each product and the sum to f32 precision of its own size, plus the rounding
+    // of (1-x). This is far tighter than "a few ulps of the larger endpoint" when the result is small.
+    let _ = wide;
+    let slack = arith_slack(a, b, xr, real);
     if (got - real).abs() > 0.5 + slack {
         return Err(format!("lerp({a},{b},{x:?}) = {got}, the real interpolation is {real} (not rounded to nearest; slack {slack:.3e})"));
     }
@@ -147,6 +154,7 @@ pub fn x_strategy() -> impl Strategy<Value = f32> {
         3 => (0u32..=256).prop_map(|k| k as f32 / 256.0),
         3 => 0.0f32..=1.0,
         1 => prop::sample::select(vec![0.0f32, 1.0, f32::from_bits(1), f32::MIN_POSITIVE, 1.0 - f32::EPSILON / 2.0, 0.5, f32::EPSILON]),
+        1 => prop::sample::select(vec![1.4901161e-8f32, 2.9802322e-8, 1.0e-9, 1.0e-6, 2.7939677e-9, 3.0e-5, 0.999999, 0.99999994]),
     ]
 }
 
@@ -189,8 +197,7 @@ fn wide_judge(c: &WideCase, obs: &mut Obs) -> Result<(), String> {
             return Err(format!("{}::lerp({},{},{x:?}) = {got}", TYPES[ty as usize], c.a, c.a));
         }
         if let Some((px, pv)) = prev {
-            let m = c.a.abs().max(c.b.abs());
-            let slack = if wide { 2.0 * ulp32(m as f32) as f64 } else { 3.0 * 2f64.powi(-24) * (m + 1.0) };
+            let slack = 2.0 * arith_slack(c.a, c.b, x as f64, got);
             let dec = if c.b >= c.a { got < pv - slack } else { got > pv + slack };
             if px < x && dec && !int_decrease_is_noise(c.a, c.b, px, x, pv, got, slack) {
                 return Err(format!("{}: not monotone in x: lerp({},{},{px:?}) = {pv} but at {x:?} = {got}", TYPES[ty as usize], c.a, c.b));
@@ -219,7 +226,7 @@ pub struct FloatCase {
 }
 
 fn float_strategy() -> impl Strategy<Value = FloatCase> {
-    let f = || prop_oneof![3 => -1.0e4f32..1.0e4, 2 => (-100i32..100).prop_map(|v| v as f32), 1 => prop::sample::select(vec![0.0f32, 1.0, -1.0, 1.0e30, -1.0e30, 1.0e-30, 16_777_216.0]), 1 => any::<f32>().prop_filter("finite", |v| v.is_finite() && v.abs() < 1e37)];
+    let f = || prop_oneof![3 => -1.0e4f32..1.0e4, 2 => (-100i32..100).prop_map(|v| v as f32), 1 => prop::sample::select(vec![0.0f32, 1.0, -1.0, 1.0e30, -1.0e30, 1.0e-30, 16_777_216.0, 3.0e38, -3.0e38, f32::MAX, f32::MIN]), 1 => any::<f32>().prop_filter("finite", |v| v.is_finite() && v.abs() < 1e37)];
     // f64 endpoints: f32-representable values over the whole exponent range (tiny and huge
     // magnitudes, narrow ranges), plus ordinary ones
     let d = || {
@@ -251,8 +258,7 @@ fn float_judge(c: &FloatCase, obs: &mut Obs) -> Result<(), String> {
             return Err(format!("f32 lerp({a:?},{b:?},1) = {got:?}"));
         }
         let real = a as f64 * (1.0 - x as f64) + b as f64 * x as f64;
-        let m = a.abs().max(b.abs());
-        let tol = 2.0 * ulp32(m) as f64;
+        let tol = arith_slack(a as f64, b as f64, x as f64, real);
         if (got as f64 - real).abs() > tol {
             return Err(format!("f32 lerp({a:?},{b:?},{x:?}) = {got:?}, real interpolation {real} (tolerance {tol:.3e})"));
         }
@@ -276,7 +282,7 @@ fn float_judge(c: &FloatCase, obs: &mut Obs) -> Result<(), String> {
         let m64 = c.a64.abs().max(c.b64.abs());
         // f32 precision: relative 2^-22 of the larger endpoint, but never finer than the smallest
         // f32 denormal step (the computation goes through f32)
-        if (g64 - real64).abs() > m64 * 2f64.powi(-22) + 3.0e-45 {
+        if (g64 - real64).abs() > 2.0 * arith_slack(c.a64, c.b64, x as f64, real64) {
             return Err(format!("f64 lerp({},{},{x:?}) = {g64}, real interpolation {real64} (beyond f32 precision)", c.a64, c.b64));
         }
         // endpoints are exactly representable in f32 here, so the laws hold exactly
